@@ -11,6 +11,9 @@ package corerad
 //   rnd  random larger RAs (repeated prefixes and routes, several RDNSS / DNSSL, unknown options)
 //   cfg  own RA built by config.Parse from generated TOML (sub-unit durations), received RA =
 //        its own wire image, delivered through Advertiser.handle with the parsed plugins
+//   dyn  ONE Advertiser (wildcard ::/64 prefix, :: RDNSS, ::/0 route, deprecated prefix / route) receives
+//        2-4 RAs while its own RA changes in between (injected addresses / routes / clock, forwarding
+//        flip); each reception is compared with the own RA of that moment
 // Every own RA that the codec accepts is also sent to itself (self = 1|2).
 
 import (
